@@ -11,8 +11,8 @@
    non-empty, block hashes are non-empty and identify a block with its ancestors, a key is
    registered at most once per branch, and head + range limit < 2^63. *)
 From Coq Require Import List NArith ZArith Bool Lia String.
-From Verif Require Import Lib.Bytes Model.Syncer Generated.SyncConsts
-     Proofs.SyncerRanges Proofs.SyncerLemmas Proofs.Syncer Proofs.SyncerInstances.
+From Verif Require Import Lib.Bytes Model.Syncer Generated.SyncConsts Generated.SyncFuns
+     Proofs.SyncFuns Proofs.SyncerRanges Proofs.SyncerLemmas Proofs.Syncer Proofs.SyncerInstances.
 Import ListNotations.
 Open Scope string_scope.
 Open Scope list_scope.
@@ -33,6 +33,50 @@ Example C15_sync_ranges_cover_nonvacuous :
   ranges_cover 1 21010 10000 [(1, 10000); (10001, 20000); (20001, 21010)] /\
   get_sync_ranges 5 4 3 = RangesDone [].
 Proof. split; [vm_compute; reflexivity|]. split; [|vm_compute; reflexivity]. simpl. repeat split; try lia; intros H; congruence. Qed.
+
+(* The model's GetSyncRanges is the function translated statement by statement from
+   medley/syncranges.go (Generated/SyncFuns.v; the Go loop as a fuelled recursion that accumulates
+   the result, with the uint64 wraps and the index assignment written out): equal outcome for
+   every fuel and every input, wrapping or not. *)
+Theorem C15_generated_sync_ranges : forall fuel s e r,
+  gen_get_sync_ranges fuel s e r =
+  match sync_ranges_loop fuel s e r with
+  | RangesDone rs => GenRangesDone rs
+  | RangesOutOfFuel => GenRangesOutOfFuel
+  end.
+Proof. exact generated_sync_ranges. Qed.
+Print Assumptions C15_generated_sync_ranges.
+
+Example C15_generated_sync_ranges_nonvacuous :
+  gen_get_sync_ranges 5 1 21010 10000 = GenRangesDone [(1, 10000); (10001, 20000); (20001, 21010)] /\
+  gen_get_sync_ranges 2 1 21010 10000 = GenRangesOutOfFuel.
+Proof. vm_compute. split; reflexivity. Qed.
+
+(* The model's reorg test is the translated getNumReorgedBlocks (registry, sequencer; the
+   constant AssumedReorgDepth inlined by the translator) and calculateReorgDepth (multi-event
+   syncer), with bytes.Equal(header.ParentHash, status.BlockHash) as a boolean argument, for
+   all block numbers within int64 (the Go int64 conversions and the + 1 are then exact). *)
+Theorem C15_generated_num_reorged :
+  forall (E : Type) (fl : flavour) (k : Z) (h : bytes) (nd : node E),
+    0 <= k < 9223372036854775807 -> - 9223372036854775808 <= n_number nd < 9223372036854775808 ->
+    (fl_depth fl = registry_assumed_reorg_depth ->
+     num_reorged fl k h nd = gen_registry_num_reorged (n_number nd) k (bytes_eqb (n_parent nd) h)) /\
+    (fl_depth fl = sequencer_assumed_reorg_depth ->
+     num_reorged fl k h nd = gen_sequencer_num_reorged (n_number nd) k (bytes_eqb (n_parent nd) h)) /\
+    (- 9223372036854775808 <= fl_depth fl < 9223372036854775808 ->
+     num_reorged fl k h nd = gen_multi_reorg_depth (n_number nd) k (bytes_eqb (n_parent nd) h) (fl_depth fl)).
+Proof.
+  intros E fl k h nd Hk Hn. split; [|split]; intros Hd.
+  - apply generated_registry_num_reorged; assumption.
+  - apply generated_sequencer_num_reorged; assumption.
+  - apply generated_reorg_depth; assumption.
+Qed.
+Print Assumptions C15_generated_num_reorged.
+
+Example C15_generated_num_reorged_nonvacuous :
+  gen_registry_num_reorged 26 25 false = 10 /\ gen_registry_num_reorged 8 7 false = 7 /\
+  gen_registry_num_reorged 26 25 true = 0 /\ gen_multi_reorg_depth 27 25 false 3 = 0 /\ gen_multi_reorg_depth 26 25 false 3 = 3.
+Proof. vm_compute. repeat split. Qed.
 
 (* The sync position and the events it covers change together.  For every syncer flavour
    (including the legacy one), every node, every state and all fault streams: the database
